@@ -14,6 +14,7 @@ use tera::{Context, Map, Tera, Value};
 pub mod pools;
 pub mod corpus;
 pub mod gen_tpl;
+pub mod galvm;
 
 // ---------------------------------------------------------------- PRNG (splitmix64)
 
@@ -380,6 +381,7 @@ pub struct Sink {
     check_fn: String,
     shard_cap: usize,
     cur: Vec<String>,
+    cur_defs: Vec<(String, String)>,
     shard_no: usize,
     pub count: usize,
     jsonl: std::fs::File,
@@ -388,6 +390,10 @@ pub struct Sink {
     pub nontrivial: usize,
     pub samples: Vec<serde_json::Value>,
     pub tags: std::collections::BTreeMap<String, usize>,
+}
+
+pub fn fnv_pub(s: &str) -> u64 {
+    fnv(s)
 }
 
 fn fnv(s: &str) -> u64 {
@@ -411,6 +417,7 @@ impl Sink {
             check_fn: check_fn.to_string(),
             shard_cap: 250,
             cur: Vec::new(),
+            cur_defs: Vec::new(),
             shard_no: 0,
             count: 0,
             jsonl,
@@ -457,6 +464,39 @@ impl Sink {
         }
     }
 
+    /// Like `push`, for cases whose term refers to shared definitions `(name, term)`: each is
+    /// emitted once per shard as `Definition name := term.` before the `Eval`.
+    pub fn push_with_defs(
+        &mut self,
+        defs: &[(String, String)],
+        gallina: String,
+        desc: serde_json::Value,
+        nontrivial: bool,
+        kf: Option<&str>,
+        tags: &[&str],
+    ) {
+        let before = self.count;
+        let full = format!("{}|{}", defs.iter().map(|d| d.1.as_str()).collect::<Vec<_>>().join("|"), gallina);
+        let h = fnv(&full);
+        if self.seen.contains(&h) {
+            return;
+        }
+        for d in defs {
+            if !self.cur_defs.iter().any(|x| x.0 == d.0) {
+                self.cur_defs.push(d.clone());
+            }
+        }
+        self.push(gallina, desc, nontrivial, kf, tags);
+        if self.count == before {
+            return;
+        }
+        self.seen.insert(h);
+    }
+
+    pub fn shard_cap_set(&mut self, n: usize) {
+        self.shard_cap = n;
+    }
+
     pub fn flush(&mut self) {
         if self.cur.is_empty() {
             return;
@@ -464,6 +504,10 @@ impl Sink {
         let path = self.dir.join(format!("cases_{}_{:04}.v", self.family, self.shard_no));
         let mut f = std::fs::File::create(path).expect("shard");
         writeln!(f, "{}", self.header).unwrap();
+        for (n, t) in &self.cur_defs {
+            writeln!(f, "Definition {n} := {t}.").unwrap();
+        }
+        self.cur_defs.clear();
         writeln!(f, "Eval vm_compute in mismatches {} [", self.check_fn).unwrap();
         for (i, c) in self.cur.iter().enumerate() {
             let sep = if i + 1 == self.cur.len() { "" } else { ";" };
